@@ -39,55 +39,7 @@ func (c *Ctx) iterGuard(rule, key string, fn *ssa.Function, what string, sel IfA
 	if fn == nil {
 		return false
 	}
-	cut := ssau.NewCut()
-	var ifs []*ssa.If
-	for _, i := range ssau.Ifs(fn) {
-		if m, arm := sel(i); m {
-			ifs = append(ifs, i)
-			cut.AddEdge(i.Block(), ssau.Arm(i, arm))
-		}
-	}
-	if len(ifs) == 0 {
-		c.R.Check(rule, key, false, c.pos(fn.Pos()), fmt.Sprintf("%s: no branch on %s", fname(fn), what))
-		return false
-	}
-	hs := loopHeaders(ifs[0].Block())
-	if ifs[0].Block().Comment != "" && len(hs) > 0 && hs[0] == ifs[0].Block() {
-		// the test is the loop condition itself
-	}
-	if level >= len(hs) {
-		c.R.Check(rule, key, false, c.posOf(ifs[0]), fmt.Sprintf("%s: the test of %s is not inside a loop (level %d)", fname(fn), what, level))
-		return false
-	}
-	H := hs[level]
-	var body *ssa.BasicBlock
-	for _, s := range H.Succs {
-		if s == ifs[0].Block() || s.Dominates(ifs[0].Block()) {
-			body = s
-		}
-	}
-	if body == nil {
-		c.R.Undecided(rule, key, c.posOf(ifs[0]), "cannot identify loop body")
-		return false
-	}
-	cut.AddInstr(H.Instrs[0])
-	r := ssau.ReachFromBlock(fn, body, cut)
-	for _, p := range H.Preds {
-		if r.EdgeReachable(p, H) && (r.Block(p) || p == body) {
-			c.R.Check(rule, key, false, c.posOf(ifs[0]), fmt.Sprintf("%s: a loop iteration completes without passing %s; path %s", fname(fn), what, ssau.DescribePath(fn, r.Path(p), c.pos)))
-			return false
-		}
-	}
-	// and no success exit from inside the iteration without the guard
-	ec := c.classifier(fn, G1Opt{})
-	for _, ret := range ec.SuccessExitsIn(r, cut) {
-		if r.Block(ret.Block()) {
-			c.R.Check(rule, key, false, c.posOf(ret), fmt.Sprintf("%s: success exit inside the loop without passing %s", fname(fn), what))
-			return false
-		}
-	}
-	c.R.Check(rule, key, true, c.posOf(ifs[0]), fmt.Sprintf("%s: every completed iteration passes %s (%d branch(es))", fname(fn), what, len(ifs)))
-	return true
+	return c.iterGuardOpt(rule, key, fn, what, sel, level, G1Opt{})
 }
 
 // lookupAbsent matches `_, ok := m[k]; if ok {reject}`: required arm is ok == false.
@@ -272,21 +224,19 @@ func sameCallRecv(a, b ssa.Value) bool {
 func (c *Ctx) iterGuardOpt(rule, key string, fn *ssa.Function, what string, sel IfArm, level int, opt G1Opt) bool {
 	// identical to iterGuard but the success-exit scan uses opt
 	cut := ssau.NewCut()
-	var ifs []*ssa.If
-	for _, i := range ssau.Ifs(fn) {
-		if m, arm := sel(i); m {
-			ifs = append(ifs, i)
-			cut.AddEdge(i.Block(), ssau.Arm(i, arm))
-		}
-	}
+	_, ifs := c.matchGuardsA(fn, sel, cut, 0)
 	if len(ifs) == 0 {
 		c.R.Check(rule, key, false, c.pos(fn.Pos()), fmt.Sprintf("%s: no branch on %s", fname(fn), what))
 		return false
 	}
 	hs := loopHeaders(ifs[0].Block())
-	if level >= len(hs) {
-		c.R.Check(rule, key, false, c.posOf(ifs[0]), fmt.Sprintf("%s: the test of %s is not inside %d nested loop(s)", fname(fn), what, level+1))
+	if len(hs) == 0 {
+		c.R.Check(rule, key, false, c.posOf(ifs[0]), fmt.Sprintf("%s: the test of %s is not inside a loop", fname(fn), what))
 		return false
+	}
+	if level >= len(hs) {
+		// the inner search loop was folded into a helper: the element loop is the outermost one left
+		level = len(hs) - 1
 	}
 	H := hs[level]
 	var body *ssa.BasicBlock
@@ -470,7 +420,44 @@ func runC07(c *Ctx) {
 			}
 		}
 	}
-	c.R.Check("G1-sanity", "CheckBlockSanity|second-coinbase loop covers transactions[1:]", okSlice, c.pos(cbs.Pos()), "the second-coinbase loop ranges over transactions[1:]")
+	// or an index loop i = 1 .. len(transactions)-1 in steps of one whose body tests transactions[i]
+	if !okSlice {
+		isTxs := func(v ssa.Value) bool {
+			return ssau.DependsOn(v, func(x ssa.Value) bool { return ssau.IsFieldOf(x, "Block", "Transactions") })
+		}
+		for _, i := range ssau.Ifs(cbs) {
+			b, ok := i.Cond.(*ssa.BinOp)
+			if !ok || b.Op != token.LSS || !isLenOf(isTxs)(b.Y) {
+				continue
+			}
+			phi, ok := b.X.(*ssa.Phi)
+			if !ok {
+				continue
+			}
+			from1, step1 := false, false
+			for _, e := range phi.Edges {
+				if isConstInt(1)(e) {
+					from1 = true
+				}
+				if add, ok := e.(*ssa.BinOp); ok && add.Op == token.ADD && add.X == ssa.Value(phi) && isConstInt(1)(add.Y) {
+					step1 = true
+				}
+			}
+			// the coinbase test in the loop indexes the transactions with that counter
+			uses := false
+			for blk := range ssau.LoopBody(i.Block()) {
+				for _, in := range blk.Instrs {
+					if ia, ok := in.(*ssa.IndexAddr); ok && ia.Index == ssa.Value(phi) && isTxs(ia.X) {
+						uses = true
+					}
+				}
+			}
+			if from1 && step1 && uses {
+				okSlice = true
+			}
+		}
+	}
+	c.R.Check("G1-sanity", "CheckBlockSanity|second-coinbase loop covers transactions[1:]", okSlice, c.pos(cbs.Pos()), "the second-coinbase loop covers every transaction from index 1 (range over transactions[1:] or an index loop from 1)")
 	// (iii) duplicate txid
 	var idSet *seenSet
 	for _, s := range findSeenSets(cbs) {
